@@ -86,6 +86,11 @@ func (r *Receiver) Receive(m Message, from uint16) {
 		if sender == r.SelfID {
 			return
 		}
+		// A sender cannot vouch for its own message: only the other parties' acknowledgements count
+		if sender == from {
+			r.Logger.Warnf("Got ack from %d about its own message, ignoring it", from)
+			return
+		}
 		r.Logger.Debugf("Got ack {sender: %d, digest: %s, round: %d} from %d",
 			sender, hex.EncodeToString(digest[:8]), msgRound, from)
 		r.registerMsg(msgReception{
